@@ -64,6 +64,13 @@ def _hand(tier):
         {"kind": "hand", "name": "nary-sum", "K": 2, "arity": 2, "input": "cat-softmax", "mixing": "softmax"},
         {"kind": "hand", "name": "nary-sum", "K": 2, "arity": 3, "input": "cat-softmax", "mixing": "raw"},
         {"kind": "hand", "name": "kron3", "K": 2, "input": "embedding"},
+        # order-sensitive layers listing their inputs against the creation (= folding) order
+        {"kind": "hand", "name": "kron3", "K": 2, "input": "embedding", "revins": True},
+        {"kind": "hand", "name": "prod-out", "K": 2, "input": "embedding", "kron": True, "revins": True},
+        {"kind": "hand", "name": "nary-sum", "K": 2, "arity": 2, "input": "cat-logits", "revins": True},
+        {"kind": "hand", "name": "nary-sum", "K": 2, "arity": 3, "input": "embedding", "Ko": 2, "revins": True},
+        {"kind": "hand", "name": "interleaved", "K": 2},
+        {"kind": "hand", "name": "interleaved", "K": 2, "inputs": ["cat-logits", "embedding", "cat-logits"]},
         {"kind": "hand", "name": "had3", "K": 3, "input": "cat-logits", "Ko": 2},
         {"kind": "hand", "name": "nested", "K": 2, "input": "embedding", "ids": [9, 16, 3], "rev": True},
         {"kind": "hand", "name": "single-input", "K": 2, "input": "cat-probs"},
